@@ -40,7 +40,16 @@ theorem scan_ok (bs : List WBatch) (t : Tail) (logs : List Log) (ds : List WBatc
       simp only [hl, Bool.false_eq_true, if_false] at h
       cases hc : classify b with
       | exc e => simp [hc] at h
-      | badLevel => simp [hc] at h
+      | ignored =>
+        simp only [hc] at h
+        obtain ⟨ht, hloc, hd, hlg⟩ := ih logs ds h
+        refine ⟨ht, ?_, ?_, ?_⟩
+        · intro x hx
+          cases hx with
+          | head => exact hl
+          | tail _ hx => exact hloc x hx
+        · rw [dataBatches_cons, hc]; simp only [show (Cls.ignored == Cls.data) = false by rfl]; simp [hd]
+        · rw [logsOf_cons, hc]; exact hlg
       | log l =>
         simp only [hc] at h
         cases hs : scan r t with
@@ -270,6 +279,14 @@ theorem plain_cycle (a p : List Log) (b : Batch) :
 theorem plain_logs2 (a p : List Log) : (logItems a ++ logItems p).map WItem.plain = plainLogs (a ++ p) := by
   simp [plainLogs, logItems]
 
+theorem plain_fail (a : List Log) (e : Exn) :
+    (logItems a ++ [Item.err e]).map WItem.plain = plainLogs a ++ [.plain (.err e)] := by
+  simp [plainLogs]
+
+theorem plain_fail2 (a p : List Log) (e : Exn) :
+    (logItems a ++ logItems p ++ [Item.err e]).map WItem.plain = plainLogs (a ++ p) ++ [.plain (.err e)] := by
+  simp [plainLogs, logItems]
+
 theorem readX_logs (R : Resolver) (ls : List Log) (xs : List WItem) :
     readUntilDataX R (plainLogs ls ++ xs) = (Sem.lg ls ++ (readUntilDataX R xs).1, (readUntilDataX R xs).2) := by
   induction ls with
@@ -418,7 +435,9 @@ theorem serveStep_rel {B : Type} (env : Env B) (st : Storage B) (cfg : Cfg) (siz
     · right; exact ⟨q, b, hr, Or.inl ⟨hact, by simp only [hq]⟩⟩
   | emitFinish b =>
     cases exch with
-    | true => exact inl_fail [.err finishOnExchangeExn] (by simp [stepOut, processExchangeStep, hact])
+    | true =>
+      exact inl_fail (logItems step.logs ++ logItems step.post ++ [.err finishOnExchangeExn]) (by
+        simp [stepOut, processExchangeStep, hact])
     | false =>
       have hs : stepOut false step = .done (logItems step.logs ++ [Item.data b] ++ logItems step.post) := by
         simp [stepOut, processStep, hact]
@@ -430,15 +449,17 @@ theorem serveStep_rel {B : Type} (env : Env B) (st : Storage B) (cfg : Cfg) (siz
       · right; exact ⟨q, b, hr, Or.inr ⟨rfl, hact, by simp only [hq]⟩⟩
   | finish =>
     cases exch with
-    | true => exact inl_fail [.err finishOnExchangeExn] (by simp [stepOut, processExchangeStep, hact])
+    | true =>
+      exact inl_fail (logItems step.logs ++ logItems step.post ++ [.err finishOnExchangeExn]) (by
+        simp [stepOut, processExchangeStep, hact])
     | false =>
       have hs : stepOut false step = .done (logItems step.logs ++ logItems step.post) := by
         simp [stepOut, processStep, hact]
       rw [hs]
       simp only [flush_nodata]
       exact ⟨keeps_refl st s, fun _ _ => Or.inl (by rw [hs]; rfl)⟩
-  | raise e => exact inl_fail [.err e] (by cases exch <;> simp [stepOut, processExchangeStep, processStep, hact])
-  | nothing => exact inl_fail [.err noDataExn] (by cases exch <;> simp [stepOut, processExchangeStep, processStep, hact])
+  | raise e => exact inl_fail (logItems step.logs ++ [.err e]) (by cases exch <;> simp [stepOut, processExchangeStep, processStep, hact])
+  | nothing => exact inl_fail (logItems step.logs ++ [.err noDataExn]) (by cases exch <;> simp [stepOut, processExchangeStep, processStep, hact])
 
 theorem serveAll_rel {B : Type} (env : Env B) (st : Storage B) (cfg : Cfg) (size : Batch → Nat) (schema : Nat) (exch : Bool)
     (mr : Int) : ∀ (steps : List Step) (s : st.S), (∀ x ∈ steps, Spec.ValidStep x) →
@@ -546,28 +567,29 @@ theorem iterate_obs (R : Resolver) : ∀ (steps : List Step) (outs : List StepOu
           simp only [readUntilDataX, Sem.producer, hact]
           apply obs_of_parts <;> (try obs_simp)
       | raise e =>
-        have hso : stepOut false s = .fail [.err e] := by simp [stepOut, processStep, hact]
+        have hso : stepOut false s = .fail (logItems s.logs ++ [.err e]) := by simp [stepOut, processStep, hact]
         rcases hs with h1 | ⟨q, b', hR, h2 | h2⟩
         · rw [h1, hso]
-          simp only [plainOut, Pipe.iterate, List.map_cons, List.map_nil]
-          rw [readX_logs_err]
-          simp [Sem.producer, hact, Sem.failLogs]
+          simp only [plainOut, Pipe.iterate, plain_fail]
+          rw [← List.append_assoc, ← plainLogs_append, readX_logs_err]
+          simp [Sem.producer, hact, Sem.failLogs, Engine.Aux.lg_append]
         · rw [hact] at h2; cases h2.1
         · rw [hact] at h2; cases h2.2.1
       | nothing =>
-        have hso : stepOut false s = .fail [.err noDataExn] := by simp [stepOut, processStep, hact]
+        have hso : stepOut false s = .fail (logItems s.logs ++ [.err noDataExn]) := by simp [stepOut, processStep, hact]
         rcases hs with h1 | ⟨q, b', hR, h2 | h2⟩
         · rw [h1, hso]
-          simp only [plainOut, Pipe.iterate, List.map_cons, List.map_nil]
-          rw [readX_logs_err]
-          simp [Sem.producer, hact, Sem.failLogs]
+          simp only [plainOut, Pipe.iterate, plain_fail]
+          rw [← List.append_assoc, ← plainLogs_append, readX_logs_err]
+          simp [Sem.producer, hact, Sem.failLogs, Engine.Aux.lg_append]
         · rw [hact] at h2; cases h2.1
         · rw [hact] at h2; cases h2.2.1
 
-theorem exchange_fail (R : Resolver) (c : List Log) (e : Exn) (os : List StepOutX) :
-    Pipe.exchangeAll R (plainLogs c) (.fail [.plain (.err e)] :: os) = Sem.lg c ++ [errEv e] := by
+theorem exchange_fail (R : Resolver) (c a : List Log) (e : Exn) (os : List StepOutX) :
+    Pipe.exchangeAll R (plainLogs c) (.fail (plainLogs a ++ [.plain (.err e)]) :: os) = Sem.lg c ++ (Sem.lg a ++ [errEv e]) := by
   simp only [Pipe.exchangeAll, Pipe.exchangeOne]
-  rw [readX_logs_err]
+  rw [← List.append_assoc, ← plainLogs_append, readX_logs_err]
+  simp [Engine.Aux.lg_append]
 
 theorem exchange_obs (R : Resolver) : ∀ (steps : List Step) (outs : List StepOutX) (c : List Log),
     RelAll R true steps outs →
@@ -611,34 +633,38 @@ theorem exchange_obs (R : Resolver) : ∀ (steps : List Step) (outs : List StepO
           apply obs_of_parts <;> (try obs_simp) <;> (try simp only [i1, i2, i3]) <;> (try obs_simp)
         · exact absurd h2.1 (by simp)
       | finish =>
-        have hso : stepOut true s = .fail [.err finishOnExchangeExn] := by simp [stepOut, processExchangeStep, hact]
+        have hso : stepOut true s = .fail (logItems s.logs ++ logItems s.post ++ [.err finishOnExchangeExn]) := by
+          simp [stepOut, processExchangeStep, hact]
         rcases hs with h1 | ⟨q, b', hR, h2 | h2⟩
         · rw [h1, hso]
-          simp only [plainOut, List.map_cons, List.map_nil, exchange_fail]
-          simp [Sem.exchange, hact, Sem.failLogs]
+          simp only [plainOut, plain_fail2, exchange_fail]
+          simp [Sem.exchange, hact, Sem.failLogs, Engine.Aux.lg_append]
         · rw [hact] at h2; cases h2.1
         · exact absurd h2.1 (by simp)
       | emitFinish b =>
-        have hso : stepOut true s = .fail [.err finishOnExchangeExn] := by simp [stepOut, processExchangeStep, hact]
+        have hso : stepOut true s = .fail (logItems s.logs ++ logItems s.post ++ [.err finishOnExchangeExn]) := by
+          simp [stepOut, processExchangeStep, hact]
         rcases hs with h1 | ⟨q, b', hR, h2 | h2⟩
         · rw [h1, hso]
-          simp only [plainOut, List.map_cons, List.map_nil, exchange_fail]
-          simp [Sem.exchange, hact, Sem.failLogs]
+          simp only [plainOut, plain_fail2, exchange_fail]
+          simp [Sem.exchange, hact, Sem.failLogs, Engine.Aux.lg_append]
         · rw [hact] at h2; cases h2.1
         · exact absurd h2.1 (by simp)
       | raise e =>
-        have hso : stepOut true s = .fail [.err e] := by simp [stepOut, processExchangeStep, processStep, hact]
+        have hso : stepOut true s = .fail (logItems s.logs ++ [.err e]) := by
+          simp [stepOut, processExchangeStep, processStep, hact]
         rcases hs with h1 | ⟨q, b', hR, h2 | h2⟩
         · rw [h1, hso]
-          simp only [plainOut, List.map_cons, List.map_nil, exchange_fail]
+          simp only [plainOut, plain_fail, exchange_fail]
           simp [Sem.exchange, hact, Sem.failLogs]
         · rw [hact] at h2; cases h2.1
         · exact absurd h2.1 (by simp)
       | nothing =>
-        have hso : stepOut true s = .fail [.err noDataExn] := by simp [stepOut, processExchangeStep, processStep, hact]
+        have hso : stepOut true s = .fail (logItems s.logs ++ [.err noDataExn]) := by
+          simp [stepOut, processExchangeStep, processStep, hact]
         rcases hs with h1 | ⟨q, b', hR, h2 | h2⟩
         · rw [h1, hso]
-          simp only [plainOut, List.map_cons, List.map_nil, exchange_fail]
+          simp only [plainOut, plain_fail, exchange_fail]
           simp [Sem.exchange, hact, Sem.failLogs]
         · rw [hact] at h2; cases h2.1
         · exact absurd h2.1 (by simp)
